@@ -72,6 +72,18 @@ def weird_programs():
         "list-in-itself-append": "令怪 = 【1】\n以怪（后增：怪）\n",
         "list-in-itself-prepend": "令怪 = 【1】\n以怪（前增：怪）\n",
         "list-in-itself-insert": "令怪 = 【1】\n以怪（新增：怪、1）\n",
+        # ... and through element / key / setter assignment whose right-hand side is NOT a plain name: a literal that mentions the
+        # target, the result of a method that yields its receiver
+        "list-in-itself-element-literal": "令怪 = 【1】\n怪#1 = 【怪，2】\n",
+        "list-in-itself-element-method-result": "令怪 = 【1】\n怪#1 = 以怪（后增：3）\n",
+        "list-in-itself-element-nested-literal": "令怪 = 【1】\n怪#1 = 【【怪】】\n",
+        "dict-in-itself-key-literal": "令怪 = 【“a” = 1】\n怪#“k” = 【怪】\n",
+        "dict-in-itself-key-dict-literal": "令怪 = 【“a” = 1】\n怪#“a” = 【“z” = 怪】\n",
+        "dict-in-itself-key-method-result": "令怪 = 【“a” = 1】\n怪#“a” = 以怪（写入：“b”、2）\n",
+        "list-in-itself-first-setter": "令怪 = 【1，2】\n怪之首项 = 【怪】\n",
+        "list-in-itself-last-setter": "令怪 = 【1，2】\n怪之末项 = 【“x” = 怪】\n",
+        "list-in-itself-element-of-element": "令怪 = 【【1】，2】\n怪#1#1 = 【怪】\n",
+        "list-in-itself-via-call-result": "如何取？\n    输入物\n    输出物\n令怪 = 【1】\n怪#1 = （取：怪）\n",
         "two-lists-in-each-other": "令怪 = 【1】\n令妖 = 【2】\n以怪（后增：妖）\n以妖（后增：怪）\n",
         "list-in-dict-in-list": "令怪 = 【1】\n令妖 = 【“a” = 1】\n以怪（后增：妖）\n以妖（写入：“b”、怪）\n",
         "object-property-is-itself": "定义环：\n    其下 = 空\n令怪 = （新建环）\n怪之下 = 怪\n",
@@ -114,6 +126,42 @@ def weird_programs():
                 if cn == "display-call": continue
                 csrc = csrc.replace("怪", "（怪法）", 1).replace("以（怪法）（", "以{（怪法）}（") if "以怪" not in csrc else csrc.replace("以怪", "以（怪法）", 1)
             out.append(("%s/%s" % (bn, cn), "导入《@JSON》\n" + bsrc + csrc))
+    return out
+
+
+def throw_programs():
+    """exception objects of every SHAPE (which properties the type has, what 其内容 is) x how they are raised x whether anything
+    handles them: an uncaught exception ends the program with a Zn error through the normal channel"""
+    types = {
+        "no-content": "定义错：\n    其代码 = 1\n",
+        "no-properties": "定义错：\n    如何用？\n        输出1\n",
+        "content-number": "定义错：\n    其内容 = 7\n",
+        "content-list": "定义错：\n    其内容 = 【1，2】\n",
+        "content-dict": "定义错：\n    其内容 = 【“a” = 1】\n",
+        "content-null": "定义错：\n    其内容 = 空\n",
+        "content-bool": "定义错：\n    其内容 = 真\n",
+        "content-text": "定义错：\n    其内容 = “文”\n",
+        "content-getter-faults": "定义错：\n    其代码 = 1\n\n    何为内容？\n        输出1 / 0\n",
+        "content-getter-number": "定义错：\n    其代码 = 1\n\n    何为内容？\n        输出5\n",
+        "content-is-itself": "定义错：\n    其内容 = 空\n\n如何新建错？\n    其内容 = 其\n",
+        "constructor-sets-nothing": "定义错：\n    其代码 = 1\n\n如何新建错？\n    输入甲子\n    令丑 = 甲子\n",
+        "constructor-faults": "定义错：\n    其内容 = “文”\n\n如何新建错？\n    其内容 = 1 / 0\n",
+    }
+    raises = {
+        "top-noarg": "抛出错！\n", "top-1arg": "抛出错：1！\n", "top-2args": "抛出错：“m”、2！\n",
+        "method": "如何险？\n    抛出错：1！\n（险）\n",
+        "method-with-other-handler": "定义别错：\n    其内容 = “b”\n如何险？\n    抛出错：1！\n    拦截别错：\n        输出1\n（险）\n",
+        "rethrown-from-handler": "如何险？\n    抛出错：1！\n    拦截错：\n        抛出其！\n（险）\n",
+        "caught-content-read": "如何险？\n    抛出错：1！\n    拦截错：\n        输出其内容\n（显示：（险））\n",
+        "caught-displayed": "如何险？\n    抛出错：1！\n    拦截错：\n        （显示：其）\n        输出1\n（显示：（险））\n",
+        "object-thrown-as-value": "令物 = （新建错：1）\n抛出异常：物！\n",
+        "in-getter": "定义外类：\n    其甲 = 1\n\n    何为乙？\n        抛出错：1！\n令物 = （新建外类）\n（显示：物之乙）\n",
+        "in-loop": "遍历【1，2】：\n    抛出错：1！\n",
+    }
+    out = []
+    for tn, tsrc in types.items():
+        for rn, rsrc in raises.items():
+            out.append(("%s/%s" % (tn, rn), "导入《@JSON》\n" + tsrc + "\n" + rsrc + "输出1\n"))
     return out
 
 
@@ -213,6 +261,8 @@ def run(ctx):
                 cases.append(dict(id=len(cases), recv=k, acc="form", name="", args=[a], src=f)); meta.append(("form", f))
     for tag, src in weird_programs():
         cases.append(dict(id=len(cases), recv="null", acc="form", name="", args=["n0"], src=src.replace("导入《@JSON》\n", "导入《@JSON》\n输入甲、乙1\n", 1))); meta.append(("shape", tag))
+    for tag, src in throw_programs():
+        cases.append(dict(id=len(cases), recv="null", acc="form", name="", args=["n0"], src=src.replace("导入《@JSON》\n", "导入《@JSON》\n输入甲、乙1\n", 1))); meta.append(("nested", "throw:" + tag))
     for tag, src in nested_programs():
         cases.append(dict(id=len(cases), recv="null", acc="form", name="", args=["n0"], src=src.replace("导入《@JSON》\n", "导入《@JSON》\n输入甲、乙1\n", 1))); meta.append(("nested", tag))
     for t in VARINPUTS + VARINPUTS2:
@@ -246,8 +296,8 @@ def run(ctx):
                     "function) = 281k invocations with the outcome the validators' patterns demand (quick: all of arity <= 1 + a seeded 45000); plus random tuples of arity 3-4 "
                     "for every method/function/constructor, 38 operator/index/assignment/iteration/construction/throw/format forms x 11 receiver kinds x pool values, and %d "
                     "input-variable texts; %d programs that build a value of unusual shape (a collection that contains itself, directly or through another collection or an object; the result of a body that "
-                    "produces nothing; a type or method as a value) and consume it in every way (display, return, format, JSON, copy, compare, search, iterate, throw, join, merge). %d programs that place every kind of definition / section (type, method, constructor, getter, import, 输入, handler, a custom throw) inside every kind of body (method, method called twice, own constructor, the redefined constructor of 异常 - constructed and thrown -, getter, type method, handler block, branch, loops) and run it. Every case runs in a worker process: the outcome class must be value or Zn error - never panic, nil result, exit or hang. The member "
-                    "tables extracted from the Go sources must equal the spec's tables" % (len(VARINPUTS) + len(VARINPUTS2), len(weird_programs()), len(nested_programs())),
+                    "produces nothing; a type or method as a value) and consume it in every way (display, return, format, JSON, copy, compare, search, iterate, throw, join, merge). %d programs that raise an exception object of every shape (no 内容 property, 内容 a number / list / dictionary / 空 / the object itself / a faulting getter, constructors that set nothing or fault) at top level, in methods, getters, loops, handled by nothing / another type's handler / a handler that reads or displays it. %d programs that place every kind of definition / section (type, method, constructor, getter, import, 输入, handler, a custom throw) inside every kind of body (method, method called twice, own constructor, the redefined constructor of 异常 - constructed and thrown -, getter, type method, handler block, branch, loops) and run it. Every case runs in a worker process: the outcome class must be value or Zn error - never panic, nil result, exit or hang. The member "
+                    "tables extracted from the Go sources must equal the spec's tables" % (len(VARINPUTS) + len(VARINPUTS2), len(weird_programs()), len(throw_programs()), len(nested_programs())),
                outcome_counts=counts, illtyped_calls_returning_a_value=illtyped_accepted, unmodelled_members=unmodelled, stale_members=stale)
     if unmodelled or stale:
         # not a verdict by itself: recorded, so that the new member gets its row in the spec's tables (until then only the
